@@ -2,7 +2,7 @@
 import itertools
 from vlib import xhex, rnd_bytes
 
-THEOREMS = ["C18_unhex_hex", "C18_hex_unhex", "C18_rejects", "C18_total"]
+THEOREMS = ["C18_unhex_hex", "C18_hex_unhex", "C18_rejects", "C18_total", "C18_tie_hexify", "C18_tie_unhexify"]
 RELEASE = True          # debug and release builds of the harness (debug_assert!, overflow checks, cfg(debug_assertions))
 RULE = ("HEX: every byte string of length <= 2 (exhaustive) + seeded random longer ones + every length 0..130 and around every power of two up to 4096 (zeros, ones, random, boundary first/last byte); UNHEX: every string of "
         "length <= 3 (quick) / <= 4 (thorough) over the 26-symbol alphabet {0-9 a-f A-F + - space g e-acute euro} + random "
